@@ -31,4 +31,4 @@ E
   ./check $pid > /dev/null 2>&1 || echo "RECHECK $pid unchanged-tree-check-failed"
 }
 export -f one
-printf '%s\n' "${IDS[@]}" | xargs -P $J -I{} bash -c 'one {}' | tee .work/seedrecheck.log
+printf '%s\n' "${IDS[@]}" | xargs -P $J -I{} bash -c 'one {}' | tee -a .work/seedrecheck.log
